@@ -22,7 +22,9 @@
      D102  an entry named "shape" / "device" / "_type" is refused at save time (ValueError) instead of being silently
            overwritten by _save_metadata;
      D103/D104  tuples and sets are no longer declared JSON-serialisable: payloads containing them go through pickle;
-     D105  NonTensorStack writes "ndim" (how many levels of "data" are stack dimensions) and _from_list stops there;
+     D105  NonTensorStack writes "ndim" (how many levels of "data" are stack dimensions) when an item is itself a list —
+           the only case where the nesting of "data" is ambiguous; the text of meta.json is unchanged otherwise — and
+           _from_list stops there;
      D106  NonTensorData writes its "batch_size";
      D107  the dtype string table holds every dtype of torch;
      D108  a lazy stack writes "num_tensordicts" and the loader takes exactly that many members;
@@ -219,6 +221,16 @@ Fixpoint stack_bs (t : td) : list nat :=
   | _ => []
   end.
 
+(* an item (below the stack dimensions) is itself a list: tolist() alone does not tell where the stack dimensions end *)
+Definition is_plist (p : payload) : bool := match p with PList _ => true | _ => false end.
+Fixpoint has_list_leaf (t : td) : bool :=
+  match t with
+  | NData bs p => match bs with [] => is_plist p | _ => false end
+  | NStack items => (fix any (l : list td) : bool := match l with [] => false | x :: r => has_list_leaf x || any r end) items
+  | _ => false
+  end.
+Definition stack_ndim (t : td) : option nat := if has_list_leaf t then Some (List.length (stack_bs t)) else None.
+
 Record opts := { copy_existing : bool; like : bool }.
 
 (* MemoryMappedTensor.from_tensor into "<key>.memmap" (memmap.py:167-275) *)
@@ -243,8 +255,9 @@ Definition ndata_files (bs : list nat) (p : payload) (files : list (fname * cont
   else Ok (fset FOther (CPickle (PDict [("data", p)]))
              (fset FMeta (CJson (JObj [("_type", JStr "NonTensorData"); ("batch_size", jshape bs); ("_metadata", JNull)])) files)).
 
-Definition nstack_files (ndim : nat) (data : payload) (files : list (fname * content)) : res (list (fname * content)) :=
-  let head := [("_type", JStr "NonTensorStack"); ("stack_dim", JInt 0); ("device", JNull); ("ndim", jnat ndim)] in
+Definition nstack_files (ndim : option nat) (data : payload) (files : list (fname * content)) : res (list (fname * content)) :=
+  let head := [("_type", JStr "NonTensorStack"); ("stack_dim", JInt 0); ("device", JNull)]
+              ++ match ndim with Some n => [("ndim", jnat n)] | None => [] end in
   if is_json_serializable data then
     match json_of data with
     | Some j => Ok (fset FMeta (CJson (JObj (head ++ [("data", j)]))) files)
@@ -288,7 +301,7 @@ Fixpoint save_over (o : opts) (t : td) (d : dir) {struct t} : res dir :=
       let files' := fset FMeta (CJson (JObj [("_type", JStr c)])) files in
       bind (save_over o inner (sub_dir "_tensordict" subs)) (fun d' => Ok (Dir files' (jset "_tensordict" d' subs)))
   | NData bs p => bind (ndata_files bs p files) (fun f' => Ok (Dir f' subs))
-  | NStack items => bind (nstack_files (List.length (stack_bs t)) (tolist t) files) (fun f' => Ok (Dir f' subs))
+  | NStack items => bind (nstack_files (stack_ndim t) (tolist t) files) (fun f' => Ok (Dir f' subs))
   end end.
 
 Definition encode (o : opts) (t : td) : res dir := save_over o t empty_dir.
@@ -303,7 +316,6 @@ Definition jshape_of (j : json) : option (list nat) := match j with JArr l => js
 Definition jstr_of (j : json) : option string := match j with JStr s => Some s | _ => None end.
 
 (* NonTensorStack._from_list (tensorclass.py:3671) *)
-Definition is_plist (p : payload) : bool := match p with PList _ => true | _ => false end.
 Definition plen (p : payload) : nat := match p with PList l => List.length l | _ => 0 end.
 Fixpoint all_ok {A} (l : list (res A)) : res (list A) :=
   match l with [] => Ok [] | x :: r => bind x (fun a => bind (all_ok r) (fun b => Ok (a :: b))) end.
